@@ -285,11 +285,18 @@ def run_map(case, ctx):
         elif k == "update":
             pairs = [tuple(p) for p in o[1]]
             muts.extend(p[0] for p in pairs)
-            if len(pairs) % 2:
+            shape = (len(pairs) + len(ref)) % 4
+            if shape == 0:
                 guard(ctx, "SortedMap/update", lambda: m.update(dict(pairs)))      # mapping argument
                 ref.update(dict(pairs))
+            elif shape == 1:
+                guard(ctx, "SortedMap/update", lambda: m.update(pairs))            # list of pairs
+                ref.update(pairs)
+            elif shape == 2:
+                guard(ctx, "SortedMap/update", lambda: m.update(iter(pairs)))      # one-shot iterator of pairs (zip, generator, ...)
+                ref.update(pairs)
             else:
-                guard(ctx, "SortedMap/update", lambda: m.update(pairs))            # iterable of pairs
+                guard(ctx, "SortedMap/update", lambda: m.update(zip([p[0] for p in pairs], [p[1] for p in pairs])))
                 ref.update(pairs)
         elif k == "popitem":
             if ref:
